@@ -105,12 +105,19 @@ def containers(s):
         ('list2', lambda: [[0, s], {'k': [s, 3]}]),
         ('dict3', lambda: {'a': {'b': {'c': s, 'd': 1.0}, 'l': [s, [s]]}, 'x': 0}),
         ('key', lambda: {s: 'v', 'w': s}),
+        # the same TEXT after substitution in different forms (placeholder form, plain text, another placeholder form):
+        # each keeps its own representation, also on a second pass
+        ('twins', lambda: [s, _PLAIN[0], {'k': s, 'p': _PLAIN[0]}, _PLAIN[0] + '', s]),
     ]
+
+
+_PLAIN = ['']
 
 
 def check_container(s, gvname, gv, fn):
     out = []
     exp, found = ref_sub(s, gv)
+    _PLAIN[0] = exp
     for cname, build in containers(s):
         obj = build()
         ids = {}
@@ -120,18 +127,19 @@ def check_container(s, gvname, gv, fn):
         if ret is not obj:
             out.append(('container-not-in-place', f'{cname} {s!r}: returned a different object'))
             continue
-        bad = _compare(obj, before, s, exp, ids, ())
+        bad = _compare(obj, before, s, lambda t: ref_sub(t, gv)[0], ids, ())
         if bad:
             out.append((f'container-{bad[0]}', f'{cname} with {s!r} / {gvname}: {bad[1]}; result {obj!r}'))
             continue
         snap = _ids_of_leaves(obj)
+        rsnap = repr(obj)
         fn(obj, gv)
-        if _ids_of_leaves(obj) != snap:
-            out.append(('container-not-idempotent', f'{cname} with {s!r} / {gvname}: second application replaced leaves'))
+        if _ids_of_leaves(obj) != snap or repr(obj) != rsnap:
+            out.append(('container-not-idempotent', f'{cname} with {s!r} / {gvname}: second application replaced leaves / changed representations: {obj!r} vs {rsnap}'))
         if repr(obj) != repr(before):
             out.append(('container-repr-changed', f'{cname} with {s!r} / {gvname}: repr {obj!r} vs {before!r}'))
         c = copy.deepcopy(obj)
-        if repr(c) != repr(before) or json.dumps(_plain(c), sort_keys=True) != json.dumps(_plain(_expected_tree(before, s, exp)), sort_keys=True):
+        if repr(c) != repr(before) or json.dumps(_plain(c), sort_keys=True) != json.dumps(_plain(_expected_tree(before, s, lambda t: ref_sub(t, gv)[0])), sort_keys=True):
             out.append(('deepcopy-changes-repr', f'{cname} with {s!r} / {gvname}: deepcopy of the substituted structure has repr {c!r}, expected {before!r}'))
     return out
 
@@ -151,8 +159,8 @@ def _expected_tree(o, s, exp):
         return {k: _expected_tree(v, s, exp) for k, v in o.items()}  # keys are not rewritten
     if isinstance(o, list):
         return [_expected_tree(v, s, exp) for v in o]
-    if isinstance(o, str) and o == s:
-        return exp
+    if isinstance(o, str):
+        return exp(o)
     return o
 
 
@@ -198,7 +206,7 @@ def _compare(o, before, s, exp, ids, path):
                 return r
         return _same_obj(o, ids, path)
     if isinstance(before, str):
-        want = exp if before == s else before
+        want = exp(before)  # every string leaf is substituted on its own terms
         if not isinstance(o, str) or str.__str__(o) != want:
             return 'wrong-text', f'at {path}: {o!r} (text {str(o)!r}), reference {want!r}'
         return None
